@@ -22,7 +22,9 @@ LEVEL = 'exploration'
 
 F = ['a', 'aa', '\\a', '\\61 ', '\\aa', '"', "'", ',', ' ', '\n', '/*', '*/', '*', '/**/', ' /**/', '-', '--', '[', ']', '=', '(', ')', '|',
      'n', '1', '+', ' of ', 'aa,', '0', '.', ':', 'T', 'W', '-*', '\\', '\\\n', '"a', 'é', '\r\n', '\r', '\f', '\t', '\r\n ', '\\\f', '\\\r', '\\\r\n', '\\\t',
-     '[a=', '[a="', "[a='", ':lang(', ':-soup-contains(', ':nth-child(', ':is(', ':not(', '#', '.a', ':a', '::a', '@a']
+     '[a=', '[a="', "[a='", ':lang(', ':-soup-contains(', ':nth-child(', ':is(', ':not(', '#', '.a', ':a', '::a', '@a',
+     # An+B openings: what follows is a digit run, whose VALUE (not length) must not drive any loop
+     ':nth-child(n-', ':nth-child(-n+', ':nth-last-of-type(2n+']
 FV = ['a', 'b', ' ', '-', 'ab', 'a ', ' a', '\n', '\t', 'g', 'g ', ' g', 'G', '-g']
 SEL_VALUES = ['g', 'a', 'a b', 'ab', '-', ' ']
 # selector values that are regular-expression syntax: whatever the spelling (quoted, or an identifier with every character escaped) they must
